@@ -270,7 +270,7 @@ def h_multiply(V, N, nr_phys_b):
 
 
 import contracts.mps_values as MV
-from contracts.mps_values import h_pbc_values, h_mpo_mpo_values, h_complex_values, h_reverse_values, h_env3_refresh, h_overlap_values, h_mpo_values, h_env3_values, h_env_sum_project_values, h_measure_values, h_project_values
+from contracts.mps_values import h_pbc_values, h_mpo_mpo_values, h_complex_values, h_reverse_values, h_env3_refresh, h_overlap_values, h_mpo_values, h_env3_values, h_env_sum_project_values, h_measure_values, h_project_values, h_penalty_values
 FUNCTIONS = list(FUNCTIONS) + [f_ for f_ in MV.FUNCTIONS if f_ not in FUNCTIONS]
 
 
